@@ -127,6 +127,9 @@ pub struct Prior {
     pub other_paragraph: bool,
     /// DEP-3 only: the mail-header forms are present (From / Subject)
     pub mail_form: bool,
+    /// a foreign field whose name is the target's name in other letter case (names are compared exactly by the
+    /// library): 0 none, 1 lower case before the target, 2 upper case after it
+    pub case_variant: u8,
 }
 
 #[derive(Debug, Clone)]
@@ -167,6 +170,11 @@ fn build_doc(row: &rows::Row, prior: &Prior) -> (String, usize) {
     if row.view == View::Dep3 && prior.mail_form {
         para.push_str("From: Old Author <old@example.com>\nSubject: old subject\n old long text\n");
     }
+    let variant = |upper: bool| if upper { row.field.to_uppercase() } else { row.field.to_lowercase() };
+    let variant_usable = |v: &str| v != row.field && !alt_names(row).iter().any(|a| a == &v) && !base.lines().any(|l| l.starts_with(&format!("{}:", v)));
+    if prior.case_variant == 1 && variant_usable(&variant(false)) {
+        para.push_str(&format!("{}: case variant, keep\n", variant(false)));
+    }
     if !base_has_target {
         if let Some(stale) = &prior.stale {
             if prior.comment_before_target {
@@ -180,6 +188,9 @@ fn build_doc(row: &rows::Row, prior: &Prior) -> (String, usize) {
                 para.push_str("# comment after the field\n");
             }
         }
+    }
+    if prior.case_variant == 2 && variant_usable(&variant(true)) {
+        para.push_str(&format!("{}: case variant, keep\n", variant(true)));
     }
     for i in 0..prior.fields_after {
         para.push_str(&format!("X-After-{}: multi\n   line {}\n", i, i));
@@ -219,6 +230,7 @@ fn stale_for(kind: &str) -> Vec<String> {
         "URLREF" => vec!["https://old.example.org/".into()],
         "DATE" => vec!["Sat, 24 Aug 2024 14:13:49 +0000".into()],
         "NAIVEDATE" => vec!["2001-01-01".into()],
+        k if k == "UPBUG" || k.starts_with("VBUG:") => vec!["https://bugs.example.org/old/1".into()],
         "CK_MD5" | "CK_SHA1" | "CK_SHA256" | "CK_SHA512" => vec!["".into(), "0123 1 old_file".into()],
         "ENV" => vec!["".into(), "OLD=\"1\"".into()],
         "RELREF" | "OREL" | "RELV" => vec!["old-dep (>= 1),".into(), "other-old".into()],
@@ -327,7 +339,8 @@ fn check_set(ri: usize, prior: &Prior, vals: &[Val], sibling: Option<usize>) -> 
         _ => Live::Doc(Deb822::from_str(&text).map_err(|e| Failure { assertion: "infra/start".into(), message: format!("{:?}: {:?}", text, e.to_string()) })?),
     };
     let names = alt_names(row);
-    let is_target = |n: &str| names.iter().any(|x| x.eq_ignore_ascii_case(n));
+    let exact = prior.case_variant != 0;
+    let is_target = |n: &str| names.iter().any(|x| if exact { *x == n } else { x.eq_ignore_ascii_case(n) });
     if let Some(si) = sibling {
         // another field of the same paragraph receives the very value that the accessor under test is about to store
         let srow = &ROWS[si];
@@ -606,6 +619,13 @@ fn gen_val(t: &mut Tape, kind: &str) -> Val {
         "BOOL_OPT" | "BOOL_YN" | "BOOL_CLEAR" => Val::OBool(Some(t.flag())),
         "VER" => Val::Str(Some(t.pick(&["1.0", "1:2.0~rc1-1", "0.5+b1", "2.1.10"]).to_string())),
         "USIZE" => Val::OUsize(Some(*t.pick(&[0usize, 1, 3524, 4294967296]))),
+        "LISTREF_COMMA" | "LISTV_COMMA" | "LISTV_SPACE" | "LISTREF_LINES" | "LISTREF_LINES_NOOPT" if t.chance(1, 6) => {
+            // a long list: far beyond one 79-column line, so that setters which fold or wrap must still read back the same items
+            let n = t.range(8, 30);
+            let stem = *t.pick(&["libexample-component", "python3-module-name", "x", "golang-github-owner-project"]);
+            let email = kind.ends_with("COMMA");
+            Val::OList(Some((0..n).map(|i| if email { format!("{} {} <m{}@example.org>", stem, i, i) } else { format!("{}{}-dev", stem, i) }).collect()))
+        }
         "LISTREF_COMMA" | "LISTV_COMMA" => {
             let mut v = vec![t.pick(&["A B <a@b.c>", "Zed <z@y>", "x", "Émile <e@f>"]).to_string()];
             while t.more(v.len(), 1, 3, 1, 2) {
@@ -641,6 +661,7 @@ fn gen_val(t: &mut Tape, kind: &str) -> Val {
             Val::ODate(Some(d.to_rfc2822()))
         }
         "NAIVEDATE" => Val::Str(Some(t.pick(&["2024-01-31", "2000-02-29", "1999-12-01"]).to_string())),
+        k if k == "UPBUG" || k.starts_with("VBUG:") => Val::Str(Some(if t.flag() { format!("https://bugs.debian.org/{}", 100000 + t.below(60000)) } else { gen_line(t) })),
         "ENV" => {
             let mut v = vec![];
             for (k, val) in [("DEB_BUILD_OPTIONS", "\"parallel=4\""), ("LANG", "\"C.UTF-8\""), ("X", ""), ("PATH", "\"/usr/bin:/bin\"")] {
@@ -681,6 +702,7 @@ fn gen_prior(t: &mut Tape, kind: &str) -> Prior {
         leading_comment: t.chance(1, 3),
         other_paragraph: t.chance(1, 2),
         mail_form: t.chance(1, 3),
+        case_variant: if t.chance(1, 6) { t.range(1, 2) as u8 } else { 0 },
     }
 }
 
@@ -705,11 +727,11 @@ impl PropImpl for C15 {
     }
     fn expected_labels(&self) -> Vec<&'static str> {
         let mut v: Vec<&'static str> = ROWS.iter().map(|r| r.label).collect();
-        v.extend(["prior:field-present", "prior:field-absent", "prior:comments-around-field", "prior:fields-before", "prior:fields-after", "prior:second-paragraph", "several-setter-calls", "clearing-setter", "sibling-field-holds-the-same-value", "getter:comma-lists", "getter:space-lists", "getter:checksum-triples", "getter:yes-no-flags", "getter:dep3", "getter:control-roles", "getter:changes", "getter:source-vcs", "getter:copyright"]);
+        v.extend(["prior:field-present", "prior:field-absent", "prior:comments-around-field", "prior:fields-before", "prior:fields-after", "prior:second-paragraph", "prior:field-with-the-same-name-in-other-letter-case", "several-setter-calls", "setter-called-twice-with-the-same-value", "consecutive-lists-share-a-prefix", "value:list-longer-than-a-line", "clearing-setter", "sibling-field-holds-the-same-value", "getter:comma-lists", "getter:space-lists", "getter:checksum-triples", "getter:yes-no-flags", "getter:dep3", "getter:control-roles", "getter:changes", "getter:source-vcs", "getter:copyright"]);
         v
     }
     fn budget(&self, tier: Tier) -> Budget {
-        Budget { cases_per_lane: if tier == Tier::Quick { 7500 } else { 40_000 }, tape_max: 300, cpu_s: 10 }
+        Budget { cases_per_lane: if tier == Tier::Quick { 22500 } else { 90000 }, tape_max: 300, cpu_s: 10 }
     }
     fn spaces(&self, _tier: Tier) -> Vec<Space> {
         vec![Space { name: "every accessor row x 8 prior states".into(), size: ROWS.len() as u64 * 8, exhaustive: true }]
@@ -731,6 +753,7 @@ impl PropImpl for C15 {
             leading_comment: s & 2 == 2,
             other_paragraph: s & 4 == 4,
             mail_form: s == 3 || s == 6,
+            case_variant: 0,
         };
         Case::Set { row, prior, vals: vec![val], sibling: None }
     }
@@ -754,7 +777,24 @@ impl PropImpl for C15 {
         let prior = gen_prior(t, kind);
         let mut vals = vec![gen_val(t, kind)];
         while t.more(vals.len(), 1, 3, 1, 4) {
-            vals.push(gen_val(t, kind));
+            // the next value is fresh, or related to the previous one: the same again, a list extended or cut by one
+            // item (common prefix), or a free-text string with a doubled blank
+            let prev = vals.last().unwrap().clone();
+            let next = match (t.below(4), prev) {
+                (0, p) => p,
+                (1, Val::OList(Some(mut l))) => {
+                    if l.len() >= 2 && t.flag() {
+                        l.pop();
+                    } else {
+                        let extra = format!("{}-2", l.last().cloned().unwrap_or_else(|| "x".into()).split(' ').next().unwrap());
+                        l.push(if kind.ends_with("COMMA") { format!("{} <e@x.org>", extra) } else { extra });
+                    }
+                    Val::OList(Some(l))
+                }
+                (1, Val::Str(Some(p))) if (kind == "S" || kind == "OS") && p.contains(' ') => Val::Str(Some(p.replacen(' ', "  ", 1))),
+                _ => gen_val(t, kind),
+            };
+            vals.push(next);
         }
         let siblings: Vec<usize> = (0..ROWS.len()).filter(|&i| ROWS[i].view == ROWS[row].view && ROWS[i].kind == kind && !ROWS[i].field.eq_ignore_ascii_case(ROWS[row].field)).collect();
         let sibling = if !siblings.is_empty() && t.chance(1, 3) { Some(siblings[t.below(siblings.len())]) } else { None };
@@ -771,7 +811,11 @@ impl PropImpl for C15 {
                 ctx.label_if(prior.fields_before > 0, "prior:fields-before");
                 ctx.label_if(prior.fields_after > 0, "prior:fields-after");
                 ctx.label_if(prior.other_paragraph, "prior:second-paragraph");
+                ctx.label_if(prior.case_variant != 0, "prior:field-with-the-same-name-in-other-letter-case");
                 ctx.label_if(vals.len() > 1, "several-setter-calls");
+                ctx.label_if(vals.windows(2).any(|w| w[0] == w[1]), "setter-called-twice-with-the-same-value");
+                ctx.label_if(vals.windows(2).any(|w| matches!((&w[0], &w[1]), (Val::OList(Some(a)), Val::OList(Some(b))) if a != b && (a.starts_with(b) || b.starts_with(a)))), "consecutive-lists-share-a-prefix");
+                ctx.label_if(vals.iter().any(|v| matches!(v, Val::OList(Some(l)) if l.iter().map(|x| x.len() + 1).sum::<usize>() > 100)), "value:list-longer-than-a-line");
                 ctx.label_if(vals.iter().any(|v| v.is_clearing(ROWS[*row].kind)), "clearing-setter");
                 ctx.nontrivial = prior.stale.is_some() || prior.fields_before + prior.fields_after > 0 || prior.comment_before_target || prior.comment_after_target;
             }
